@@ -158,7 +158,7 @@ PROPERTIES = {
         "gen_args_thorough": {"trunc": {"max_n": 120}},
         "parallel": True,
         "rule": "single non-dominated fronts of 2M+2..36 points (thorough ..120), 2..4 objectives (continuous simplex / sphere fronts, grid-valued, constant objective, tied extremes, duplicates, badly scaled), truncated by RankAndCrowding to n_survive in [2M, N) (two thirds) or [1, N), five metrics, compiled engine in-process (pcd with >= 3 objectives only where the kernel model predicts no out-of-bounds index), a third also in the pure-Python engine in a worker process with the same seed; plus the mixed-front survival records of C03; distinct = hash; non-trivial = a front was cut",
-        "explanation": "theorems take_keeps_top, boundary_retained, cdSorted_top_count, dropped_smallest (+ C13 extremes / well-formedness); greedy pruning: sort_mono, nnProduct_mono, cMnn_mono, mnnFallback_stale_le_live (mnn / 2nn definition), gapF_mono, sumF_mono, pcdFallback_stale_le_live and - through C13.pcdKernelF_refines - pcdKernel_stale_le_live (pcd definition and compiled kernel): every pruned point keeps a value <= every live point's, so truncation_drops_removed applies; for the compiled mnn / 2nn kernel the same follows through C13.mnnKernelF_refines (mnnKernel_stale_le_live) on every front without distance ties. The n_remove forwarded to the crowding function and the crowding values it returned are checked against the Lean metric models inside every survival record; the dropped set is compared with an independent one-at-a-time pruning reference on tie-free fronts in both engines, down to N - M kept members",
+        "explanation": "theorems take_keeps_top, boundary_retained, cdSorted_top_count, dropped_smallest (+ C13 extremes / well-formedness); greedy pruning: sort_mono, nnProduct_mono, cMnn_mono, mnnFallback_stale_le_live (mnn / 2nn definition), gapF_mono, sumF_mono, pcdFallback_stale_le_live and - through C13.pcdKernelF_refines - pcdKernel_stale_le_live (pcd definition and compiled kernel): every pruned point keeps a value <= every live point's, so truncation_drops_removed applies; for the compiled mnn / 2nn kernel the same follows through C13.mnnKernelF_refines (mnnKernel_stale_le_live) on every front without distance ties; C15d composes them: mnn_truncation_is_greedy - for 1 <= n_remove <= N - M the members kept by the cut I[:-n_remove] are exactly the live set after n_remove greedy removals (pruneLive), when the compared values do not tie (mnnKernel_truncation_is_greedy for the compiled kernel). The n_remove forwarded to the crowding function and the crowding values it returned are checked against the Lean metric models inside every survival record; the dropped set is compared with an independent one-at-a-time pruning reference on tie-free fronts in both engines, down to N - M kept members",
         "assumptions": ["descending argsort contract (checked on every record)", "for the compiled mnn / 2nn kernel greedy-pruning equivalence rests on the reference comparison, not on a theorem"],
     },
     "C17": {
@@ -182,7 +182,7 @@ PROPERTIES = {
         "components": [("stats", 52, 260), ("mask", 300, 40000), ("dex", 200, 30000), ("dem", 300, 40000), ("des", 300, 40000), ("repair", 200, 30000)],
         "gen_args_thorough": {"stats": {"n_samples": 200000}},
         "parallel": True,
-        "level_text": "PARTIAL. Lean theorems give each outcome as an exact event of NumPy's primitives (coordinate taken iff its draw < CR, block length >= k iff the first k draws < CR, dither / jitter / bounce-back / rand-init are affine bijections of [0,1) onto the stated segment, re-selection keeps the first admissible candidate and admissible values are exchangeable) and - C19b, by counting over the grid {i/N} of numpy.random.random(), N = 2^53 - the laws themselves: exactly ceil(CR N) of the N draws are < CR (grid_count_lt, grid_prob_close), the number of draw vectors producing a given binomial mask is the product of the per-coordinate counts (bin_mask_count: independence), the block length of exponential crossover is >= k on exactly ceil(CR N)^k N^(n-k) of the N^n draw vectors (exp_len_count: geometric law), a sub-interval of the dither range receives a number of draws proportional to its length up to one grid point (dither_count, grid_count_Ico); that NumPy's generator is uniform on that grid and independent across calls is trusted; ",
+        "level_text": "PARTIAL. Lean theorems give each outcome as an exact event of NumPy's primitives (coordinate taken iff its draw < CR, block length >= k iff the first k draws < CR, dither / jitter / bounce-back / rand-init are affine bijections of [0,1) onto the stated segment, re-selection keeps the first admissible candidate and admissible values are exchangeable) and - C19b, by counting over the grid {i/N} of numpy.random.random(), N = 2^53 - the laws themselves: exactly ceil(CR N) of the N draws are < CR (grid_count_lt, grid_prob_close), the number of draw vectors producing a given binomial mask is the product of the per-coordinate counts (bin_mask_count: independence), the block length of exponential crossover is >= k on exactly ceil(CR N)^k N^(n-k) of the N^n draw vectors (exp_len_count: geometric law), a sub-interval of the dither range receives a number of draws proportional to its length up to one grid point (dither_count, grid_count_Ico), as many candidate streams of the re-selection loop end with one admissible parent as with another (uniform_parent_count); that NumPy's generator is uniform on that grid and independent across calls is trusted; ",
         "rule": OPS_RULE + "any record; plus exact finite-sample tests on the real operators (13 kinds: binomial marginals / pairs / forced coordinate, exponential block length and start, dither, one scale factor per mating and difference, default F, jitter, parent columns and triples, bounce-back, rand-init) with 2e4 (thorough 2e5) samples each, every comparison at level 1e-13 (exact binomial tails, DKW bound), < 1e4 comparisons per run => false-alarm probability <= 1e-9",
         "explanation": "theorems bin_event, forced_only_when_empty, exp_len_event, dither_strict_mono / _onto / _into, jitter_strict_mono / _onto, bounce_low_affine / _onto, bounce_up_affine, randinit_low_onto / _up_onto, redraw_keeps_admissible, first_admissible_exchange; correspondence: masks, scale factors, repaired coordinates and parent matrices equal the model on the recorded draws, call signatures included",
         "assumptions": ["numpy.random primitives are i.i.d. uniform (trusted)", "statistical tests have total false-alarm probability <= 1e-9 by construction"],
